@@ -834,18 +834,22 @@ func GenerateSelectResultRowData(r *mysql.Result) error {
 // copy from server.generateMapKey()
 func generateMapKey(groupColumns []interface{}) (string, error) {
 	bk := make([]byte, 0, 8)
-	separatorBuf, err := formatValue("+")
-	if err != nil {
-		return "", err
-	}
 
+	// the key must be injective: NULL gets its own marker and every value is written
+	// with its length, so that NULL / "NULL" and ("a+","b") / ("a","+b") cannot collide
 	for _, v := range groupColumns {
+		if v == nil {
+			bk = append(bk, 0)
+			continue
+		}
 		b, err := formatValue(v)
 		if err != nil {
 			return "", err
 		}
+		bk = append(bk, 1)
+		bk = strconv.AppendInt(bk, int64(len(b)), 10)
+		bk = append(bk, ':')
 		bk = append(bk, b...)
-		bk = append(bk, separatorBuf...)
 	}
 
 	return string(bk), nil
